@@ -14,7 +14,7 @@ import (
 // differences applied to one service's copy.
 
 type mField struct {
-	Name, Type, Args, Dirs string
+	Name, Type, Args, Dirs, Desc string
 }
 type mDef struct {
 	Kind   string // type | interface | union | enum | input | scalar | directive
@@ -43,6 +43,9 @@ func (d mDef) sdl() string {
 	case "enum":
 		fmt.Fprintf(&sb, "enum %s {\n", d.Name)
 		for _, f := range d.Fields {
+			if f.Desc != "" {
+				fmt.Fprintf(&sb, "  %q\n", f.Desc)
+			}
 			fmt.Fprintf(&sb, "  %s %s\n", f.Name, f.Dirs)
 		}
 		sb.WriteString("}\n")
@@ -59,6 +62,9 @@ func (d mDef) sdl() string {
 		}
 		fmt.Fprintf(&sb, "%s %s%s %s {\n", d.Kind, d.Name, impl, d.Dirs)
 		for _, f := range d.Fields {
+			if f.Desc != "" {
+				fmt.Fprintf(&sb, "  %q\n", f.Desc)
+			}
 			fmt.Fprintf(&sb, "  %s%s: %s %s\n", f.Name, f.Args, f.Type, f.Dirs)
 		}
 		sb.WriteString("}\n")
@@ -71,15 +77,15 @@ func mergeTable() []mDef {
 		{Kind: "interface", Name: "Node", Fields: []mField{{Name: "id", Type: "ID!"}}},
 		{Kind: "interface", Name: "Named", Fields: []mField{{Name: "id", Type: "ID!"}, {Name: "label", Type: "String", Args: "(lang: String = \"en\")"}}},
 		{Kind: "type", Name: "Item", Ifaces: []string{"Node", "Named"}, Fields: []mField{{Name: "id", Type: "ID!"}, {Name: "label", Type: "String", Args: "(lang: String = \"en\")"},
-			{Name: "price", Type: "Float"}, {Name: "tags", Type: "[String!]"}, {Name: "matrix", Type: "[[Int]]"}, {Name: "state", Type: "State!"},
+			{Name: "price", Type: "Float", Desc: "in cents"}, {Name: "tags", Type: "[String!]"}, {Name: "matrix", Type: "[[Int]]"}, {Name: "state", Type: "State!"},
 			{Name: "pick", Type: "[Item]", Args: "(ids: [Int] = [1, 2], opt: Opt = {deep: {n: 1}, flag: true})"}, {Name: "owner", Type: "Owner"}, {Name: "old", Type: "String", Dirs: "@deprecated(reason: \"gone\")"},
 			{Name: "any", Type: "Thing"}, {Name: "when", Type: "Stamp"}, {Name: "retired", Type: "Retired"}}},
 		{Kind: "type", Name: "Owner", Ifaces: []string{"Node"}, Fields: []mField{{Name: "id", Type: "ID!"}, {Name: "name", Type: "String!"}, {Name: "items", Type: "[Item!]!", Args: "(\"how many\" first: Int = 10, \"where to start\" after: String)"}, {Name: "since", Type: "Int", Args: "(\"the cursor\" cursor: String = \"null\", at: Stamp = 1, \"which ones\" mode: State = NEW, tagsIn: [String] = [])"}, {Name: "tagged", Type: "String", Dirs: "@tag(name: \"a\") @tag(name: \"b\")"}}},
 		{Kind: "union", Name: "Thing", Fields: []mField{{Name: "Item"}, {Name: "Owner"}}},
-		{Kind: "enum", Name: "State", Fields: []mField{{Name: "NEW"}, {Name: "USED", Dirs: "@deprecated(reason: \"x\")"}, {Name: "BROKEN"}}},
+		{Kind: "enum", Name: "State", Fields: []mField{{Name: "NEW", Desc: "never used"}, {Name: "USED", Dirs: "@deprecated(reason: \"x\")"}, {Name: "BROKEN", Desc: "out of order"}}},
 		// everything deprecated: what is listed without includeDeprecated is an EMPTY list, not null
-		{Kind: "enum", Name: "Legacy", Fields: []mField{{Name: "OLD", Dirs: "@deprecated"}, {Name: "OLDER", Dirs: "@deprecated(reason: \"long gone\")"}}},
-		{Kind: "type", Name: "Retired", Fields: []mField{{Name: "was", Type: "Legacy", Dirs: "@deprecated"}, {Name: "until", Type: "Int", Dirs: "@deprecated(reason: \"see Item.when\")"}}},
+		{Kind: "enum", Name: "Legacy", Fields: []mField{{Name: "OLD", Dirs: "@deprecated"}, {Name: "OLDER", Dirs: "@deprecated(reason: \"long gone\")"}, {Name: "OLDEST", Dirs: "@deprecated(reason: \"\")"}}},
+		{Kind: "type", Name: "Retired", Fields: []mField{{Name: "was", Type: "Legacy", Dirs: "@deprecated"}, {Name: "until", Type: "Int", Dirs: "@deprecated(reason: \"see Item.when\")"}, {Name: "blank", Type: "Int", Dirs: "@deprecated(reason: \" \")"}}},
 		{Kind: "input", Name: "Opt", Fields: []mField{{Name: "deep", Type: "Deep"}, {Name: "flag", Type: "Boolean", Args: ""}, {Name: "n", Type: "Int = 3"}}},
 		{Kind: "input", Name: "Deep", Fields: []mField{{Name: "n", Type: "Int"}}},
 		{Kind: "scalar", Name: "Stamp"},
